@@ -547,6 +547,78 @@ def build_plan(idx: int, seed: int, tier: str, rsp: bool, newline_pos: T.Optiona
     L.append(f"run_target('rt_env', env: {mdict(env)}, command: {mlist([D] + body)})")
     add_cmd('rt_env', 'rt_env', 'run_target', body, {}, env=env)
 
+    # ---- pickled-wrapper collision groups: several commands of ONE program that all go through the pickled wrapper with
+    # the same env / workdir / no capture-feed, whose argument lists are re-splittings of one token sequence (equal when
+    # joined by a blank, also around empty strings) or differ only by quoting-relevant characters.  Each must still
+    # receive its own argv (the wrapper's pickle file name has to tell them apart).  Expected = the multiset of argvs.
+    run_targets = ['rt_plain', 'rt_env']
+    if force is not None or idx % 3 == 0:
+        def tokens() -> T.List[str]:
+            toks: T.List[str] = []
+            for _ in range(rng.choice([3, 4])):
+                if rng.random() < 0.2:
+                    toks.append('')
+                    continue
+                cls = rng.choice([c for c in CLASSES if c not in ('space', 'tab', 'newline', 'long', 'empty', 'backslash')])
+                t = make_string(rng, cls, b.tier, False)
+                toks.append(''.join(ch for ch in t if ch not in ' \t\n\\') or 'q')
+            return toks
+
+        def splittings(toks: T.List[str], k: int) -> T.List[T.List[str]]:
+            n = len(toks)
+            masks = list(range(1 << (n - 1)))
+            rng.shuffle(masks)
+            masks = [(1 << (n - 1)) - 1, 0] + [m_ for m_ in masks if m_ not in (0, (1 << (n - 1)) - 1)]
+            res: T.List[T.List[str]] = []
+            for m_ in masks:
+                cur = [toks[0]]
+                for i in range(1, n):
+                    if m_ & (1 << (i - 1)):
+                        cur.append(toks[i])
+                    else:
+                        cur[-1] = cur[-1] + ' ' + toks[i]
+                if cur not in res:
+                    res.append(cur)
+                if len(res) >= k:
+                    break
+            return res
+
+        def quoting_variants(toks: T.List[str]) -> T.List[T.List[str]]:
+            a, c = (toks + ['q', 'w'])[0] or 'q', (toks + ['q', 'w'])[1] or 'w'
+            return [[a + "', '" + c], [a + ',' + c], [a + '" "' + c], [repr([a, c])]]
+
+        L.append('envp = environment()')
+        L.append("envp.set('DUMP_PK_0', 'v 0')")
+        L.append("envp.append('DUMP_PK_1', 'w$1')")
+        penv = {'DUMP_PK_0': 'v 0', 'DUMP_PK_1': 'w$1'}
+        groups = [('pkenv', 'custom_target', 3, None, penv), ('pknl', 'custom_target', 2, 'n\nl', None),
+                  ('pkrt', 'run_target', 2, 'r\nt', None)]
+        for gid, kind, k, tail, genv in groups:
+            toks = tokens()
+            variants = splittings(toks, k)
+            qvs = quoting_variants(toks)
+            rng.shuffle(qvs)
+            for qv in qvs[:2 if gid == 'pkenv' else 1]:
+                if qv not in variants:
+                    variants.append(qv)
+            multi: T.List[T.List[str]] = []
+            outs: T.List[str] = []
+            for i, v in enumerate(variants):
+                body = ['ID:' + gid] + v + ([tail] if tail else [])
+                b.calib.extend(body[1:])
+                name = f'{gid}_{i}'
+                if kind == 'custom_target':
+                    envkw = ', env: envp' if genv else ''
+                    L.append(f"custom_target({mstr(name)}, output: {mstr(name + '.out')}{envkw}, build_by_default: true, command: {mlist([D] + body)})")
+                    outs.append(name + '.out')
+                else:
+                    L.append(f"run_target({mstr(name)}, command: {mlist([D] + body)})")
+                    outs.append('meson-internal__' + name)
+                    run_targets.append(name)
+                multi.append(rewrite_command(body, {})[0])
+            b.cmd[gid] = {'pos': gid, 'kind': kind, 'runs': [multi[0]], 'multi': multi, 'env': genv, 'stdin': None,
+                          'out': outs[0], 'outs': outs}
+
     # ---- generators
     h = b.cmd_args('gen_args', nargs)
     x = b.cmd_args('gen_extra', 3)
@@ -610,7 +682,7 @@ def build_plan(idx: int, seed: int, tier: str, rsp: bool, newline_pos: T.Optiona
         'files': files,
         'setup_args': ['-Dc_args=' + pylist_literal(oa), '-Dc_link_args=' + pylist_literal(ola)],
         'calib': chunks, 'calibopt': list(oa) + ['<sep>'] + list(ola),
-        'cmd': b.cmd, 'compile': b.compile, 'link': b.link,
+        'cmd': b.cmd, 'compile': b.compile, 'link': b.link, 'run_targets': run_targets,
         'strings': b.strings,
     }
 
